@@ -30,8 +30,9 @@ def analyze_create(st):
     A = CreateAnalysis()
     A.argv = argv
     A.exit = res.outcome[1]
-    A.cmd_root = os.path.normpath(w.expand(argv[1]))
-    A.sf = [os.path.normpath(w.expand(p)) for p in cli_values(argv, "-sf", "--single_file")]
+    cwd = st.op.get("cwd")
+    A.cmd_root = w.abs_of(argv[1], cwd)
+    A.sf = [w.abs_of(p, cwd) for p in cli_values(argv, "-sf", "--single_file")]
     A.mode = "sf" if A.sf else "folder"
     A.formats = dedup(cli_values(argv, "-h", "--hash_format")) or ["xxh128"]
     A.nodh = "-n" in argv or "--no_directory_hashes" in argv
@@ -57,7 +58,7 @@ def analyze_create(st):
     cli = cli_values(argv, "-i", "--ignore")
     filep = []
     for f in cli_values(argv, "-ii", "--ignore_spec"):
-        fp = w.expand(f)
+        fp = w.abs_of(f, cwd)
         try:
             with core.R_open(fp, "r") as fh:
                 filep += [line.rstrip("\n") for line in fh if line != "\n"]
